@@ -94,6 +94,7 @@ func init() {
 		ns := st.fresh("sig", BV(520))
 		bs := bytesOfTerm(ns)
 		st.assume(BVUlt(bs[64], ConstU(4, 8))) // valid recovery id
+		st.assume(Not(Eq(Extract(519, 264, ns), ConstU(0, 256)))) // r != 0
 		nd := termOfBytes(dg)
 		for _, r := range st.sigs {
 			if r.key != i {
@@ -103,6 +104,15 @@ func init() {
 		}
 		st.sigs = append(st.sigs, sigReg{digest: nd, sig: ns, key: i})
 		return st.newByteSlice(bs), true
+	}
+	// MalformedSig(name): 65 bytes on which signature recovery fails for every digest (natively: r = 0)
+	exact[api+"MalformedSig"] = func(e *Engine, st *State, fn *ssa.Function, args []Value, retTo *ssa.Call) (Value, bool) {
+		name := strArg(args[0])
+		t := st.fresh(name, BV(520))
+		e.recordNondet(st, name, "blob", t, nil, 65)
+		st.assume(Eq(Extract(519, 264, t), ConstU(0, 256))) // r = 0
+		st.badSigs = append(st.badSigs, t)
+		return st.newByteSlice(bytesOfTerm(t)), true
 	}
 	exact["github.com/ethereum/go-ethereum/crypto.Ecrecover"] = func(e *Engine, st *State, fn *ssa.Function, args []Value, retTo *ssa.Call) (Value, bool) {
 		h := args[0].(SliceV)
@@ -135,7 +145,9 @@ func init() {
 			pub = Ite(m, p, pub)
 			matched = Or(matched, m)
 		}
-		fail := Or(badV, And(Not(matched), failFresh))
+		// r = 0 can never be recovered (secp256k1 requires 1 <= r < N); this also makes such counterexamples replayable
+		rZero := Eq(Extract(519, 264, S), ConstU(0, 256))
+		fail := Or(Or(badV, rZero), And(Not(matched), failFresh))
 		// fork on failure
 		ft := e.feasible(st, fail)
 		ff := e.feasible(st, Not(fail))
